@@ -1270,3 +1270,42 @@ PATTERN_PRIMS = [(_re.compile(r'.*TryFrom<\w+> for \w+>::try_from$'), _try_from_
 from .absint import std_name as _std_name
 for _k in list(P):
     P.setdefault(_std_name(_k), P[_k])
+
+
+def _range_contains(inclusive):
+    def h(m, cfg, f, args, t):
+        """`(lo..=hi).contains(&x)` / `(lo..hi).contains(&x)` with constant bounds on a single-symbol value: a membership test"""
+        st = cfg.st
+        r, x = deref(m, st, args[0]), deref(m, st, args[1])
+        if not (isinstance(r, Adt) and len(r.fields) >= 2 and isinstance(x, Int)):
+            return NotImplemented
+        lo, hi = r.fields[0], r.fields[1]
+        if not (isinstance(lo, Int) and lo.is_const() and isinstance(hi, Int) and hi.is_const()):
+            return NotImplemented
+        top = hi.c if inclusive else hi.c - 1
+        if x.is_const():
+            return Int.const(1 if lo.c <= x.c <= top else 0)
+        sg = x.single()
+        if not (sg and sg[1] == 1):
+            return NotImplemented
+        s_, _k, c_ = sg
+        from .absint import Cond, iv_and
+        rng = st.ranges[s_]
+        tset = iv_and(rng, ((lo.c - c_, top - c_),)) if lo.c <= top else ()
+        if not tset:
+            return Int.const(0)
+        if tset == rng:
+            return Int.const(1)
+        return Cond(s_, tset)
+    return h
+
+
+P['std::ops::RangeInclusive::<Idx>::contains'] = _range_contains(True)
+P['std::ops::Range::<Idx>::contains'] = _range_contains(False)
+
+
+def _range_inclusive_new(m, cfg, f, args, t):
+    return Adt('std::ops::RangeInclusive', 0, [args[0], args[1], Int.const(0)])
+
+
+P['std::ops::RangeInclusive::<Idx>::new'] = _range_inclusive_new
